@@ -539,6 +539,19 @@ class Interp:
             if fn is not None and (fn + "::" + m.group(3)) in self.prog.const_index:
                 return fn + "::" + m.group(3)
             # closures: path::{closure#0}::promoted[..] appear verbatim
+        # item nested in a method / closure:  Type::method[::{closure#n}]::NAME
+        m = re.match(r"^(.*?)((?:::\{closure#\d+\})+)::(\w+)$", plain)
+        if m:
+            fn = self.resolve_fn(m.group(1), m.group(1))
+            if fn is not None:
+                cand = fn.split("@")[0] + m.group(2) + "::" + m.group(3)
+                if cand in self.prog.const_index:
+                    return cand
+        m = re.match(r"^(.*)::(\w+)::(\w+)$", plain)
+        if m:
+            fn = self.resolve_fn(m.group(1) + "::" + m.group(2), "")
+            if fn is not None and (fn.split("@")[0] + "::" + m.group(3)) in self.prog.const_index:
+                return fn.split("@")[0] + "::" + m.group(3)
         m = re.match(r"^.*?::<impl (.*?)>::(\w+)$", plain) or re.match(r"^(.*)::(\w+)$", plain)
         if m:
             # associated const: Type::NAME -> <impl at ..>::NAME
